@@ -47,6 +47,9 @@ OPTS: dict[str, list[str]] = {
     "ns1epb": ["--namespace-packages", "--explicit-package-bases"],
 }
 ERR_TEXT = "Incompatible types in assignment"
+# mypy attaches this pointer to the first missing-import error of a *run* (only_once): which file carries it depends
+# on processing order, which no property promises
+ONCE_PER_RUN_NOTE = ": note: See https://mypy.readthedocs.io/en/stable/running_mypy.html#missing-imports"
 _LINE_RE = re.compile(r"^(?P<file>[^:\n]+):(?P<rest>\d+(?::\d+)*: (?:error|note|warning): .*)$", re.S)
 
 
@@ -164,6 +167,8 @@ class Case:
     def norm_lines(self, msgs: list[str]) -> list[str]:
         out = []
         for ln in msgs:
+            if ONCE_PER_RUN_NOTE in ln:
+                continue
             m = _LINE_RE.match(ln)
             if m:
                 fp = os.path.normpath(os.path.join(self.cwd, m.group("file")))
@@ -178,10 +183,25 @@ class Case:
         r = self.memo_args.get(key)
         if r is not None:
             return r
-        r = self._invoke(args)
+        if self.plan.get("fresh_each"):
+            # validation mode: every single invocation in its own freshly forked process (no sharing of builds)
+            from mc.kernel import run_isolated
+
+            r, st = run_isolated(self._invoke_fresh, args, timeout=600)
+            self.stats.update(st)
+            if r["bid"] > 0:
+                self.nbuild += 1
+                r["bid"] = self.nbuild
+        else:
+            r = self._invoke(args)
         r["args"] = list(args)
         self.memo_args[key] = r
         return r
+
+    def _invoke_fresh(self, args: list[str]) -> tuple[dict, dict]:
+        self.stats = Counter()
+        self.memo_src = {}
+        return self._invoke(args), dict(self.stats)
 
     def _invoke(self, args: list[str]) -> dict:
         import mypy.build as mb
@@ -263,7 +283,8 @@ class Case:
         for p, m in self.names.items():
             by_name.setdefault(m, []).append(p)
         # a module name is unambiguous if all files carrying it are stub siblings of each other
-        self.unambiguous = {m: ps for m, ps in by_name.items() if all(set(ps) <= T.sibling_stub_set(self.tree, q) for q in ps)}
+        self.unambiguous = {m: ps for m, ps in by_name.items()
+                            if m != "__main__" and all(set(ps) <= T.sibling_stub_set(self.tree, q) for q in ps)}
 
     def run(self) -> None:
         if not self.applicable:
@@ -315,8 +336,45 @@ class Case:
         if r["kind"] == "crash":
             self.herr.append(f"mypy crashed: tree={list(self.tree)} cfg={cfg_name(self.cfg)} args={r.get('args')} :: {r['msgs'][-1:]}")
 
+    def source_map(self, args: list[str]) -> dict[str, str] | str:
+        """Stage 1 only (the real option processing / create_source_list / find_modules_recursive):
+        {file path: module} of the build sources, or a string for a usage error / duplicate names."""
+        import mypy.main as mm
+        from mypy.fscache import FileSystemCache
+
+        self.stats["source_list_evaluations"] += 1
+        se = io.StringIO()
+        try:
+            sources, _ = mm.process_options(self.flags + args, stdout=io.StringIO(), stderr=se, fscache=FileSystemCache())
+        except SystemExit:
+            return "usage:" + usage_class(se.getvalue().strip().splitlines()[-1] if se.getvalue().strip() else "")
+        out: dict[str, str] = {}
+        mods = [s.module for s in sources]
+        if len(set(mods)) != len(mods):
+            return "duplicate-module-names"
+        for s in sources:
+            if s.path and not os.path.isdir(s.path):
+                out[os.path.abspath(s.path)] = s.module
+        return out
+
+    def screened_equal(self, d: str, search_roots: set[str]) -> bool:
+        files = T.files_under(self.tree, d)
+        ref = self.source_map([self.rel(d)])
+        maps = [ref]
+        fm = self.source_map([self.rel(p) for p in T.stub_preferred(files, self.tree)])
+        if fm != "duplicate-module-names":
+            maps.append(fm)
+        if d and self.abs(os.path.dirname(d)) in search_roots and self.package_question_differs(d, search_roots) is None:
+            maps.append(self.source_map(["-p", os.path.basename(d)]))
+        return not isinstance(ref, str) and all(m == ref for m in maps)
+
     def run_group(self, d: str, search_roots: set[str]) -> None:
         files = T.files_under(self.tree, d)
+        if self.plan.get("screen"):
+            if self.screened_equal(d, search_roots):
+                self.stats["groups_equal_at_source_list_level_not_built"] += 1
+                return
+            self.stats["groups_differing_at_source_list_level_built"] += 1
         ref = self.invoke([self.rel(d)])
         self.note_outcome(ref)
         self.check_graph(ref, "DIR")
@@ -517,7 +575,7 @@ class Case:
                 res_kind = "other-file:" + T.local_shape(self.tree, gk)
             else:
                 res_kind = "outside-tree"
-            sig = f"b|{'+'.join(sorted(T.local_shape(self.tree, q) for q in ps))}|resolved-to:{res_kind}"
+            sig = f"b|{'+'.join(sorted({T.local_shape(self.tree, q).split('/')[0] for q in ps}))}|resolved-to:{res_kind}"
             self.violations.append({
                 "signature": sig,
                 "what": f"tree {list(self.tree)} [{cfg_name(self.cfg)}]: mypy names {ps} module {m!r}, but in `mypy {' '.join(r['args'])}` "
@@ -624,30 +682,42 @@ def explore_batch(job: dict) -> dict:
 # ----------------------------------------------------------------------------- layers
 
 
+EVERYTHING = {"orders": "all", "modules": True, "singles": True}
+LIGHT = {"orders": "one", "modules": False, "singles": False, "dir_files": False}
+SCREENED = {"orders": "one", "modules": False, "singles": False, "dir_files": False, "screen": True}
+EPB_CORE = [c for c in CORE_CONFIGS if c["opt"] == "ns1epb"]
+EPB_EXTRA = [c for c in EXTRA_CONFIGS if c["opt"] == "ns1epb"]
+
+
 def layers_for(ctx: Ctx) -> list[dict]:
-    """The stated finite space, as a list of layers; each layer is enumerated completely."""
+    """The stated finite space, as a list of layers; each layer is enumerated completely.
+    (Sizes were chosen from measured costs: ~25 ms CPU per build, quick <= ~45 k builds, thorough <= ~650 k.)"""
     if ctx.quick:
         return [
-            {"name": "L1: <=2 files, depth<=2, full option grid, every order, -p, -m, single files",
-             "depth": 2, "sizes": [1, 2], "configs": all_configs(),
-             "plan": {"orders": "all", "modules": True, "singles": True}},
-            {"name": "L2: 3 files, depth<=2, cwd=root/MYPYPATH unset, sorted+reversed order, -p",
-             "depth": 2, "sizes": [3], "configs": CORE_CONFIGS,
-             "plan": {"orders": "rev", "modules": False, "singles": False}},
+            {"name": "Q1: <=2 files, depth<=2, full 12-configuration grid; DIR, FILES in every order, -p, -m, single files",
+             "depth": 2, "sizes": [1, 2], "configs": all_configs(), "plan": EVERYTHING},
+            {"name": "Q2: 3 files, depth<=1, cwd=root/MYPYPATH unset x 3 option sets; DIR, FILES in every order, -p, -m, single files",
+             "depth": 1, "sizes": [3], "configs": CORE_CONFIGS, "plan": EVERYTHING},
+            {"name": "Q3 (screened): 3 files, depth<=2, explicit_package_bases, cwd=root/MYPYPATH unset; the source lists (file -> module) "
+                     "of DIR, FILES, -p are compared for every tree; builds are run only for targets whose source lists differ",
+             "depth": 2, "sizes": [3], "configs": EPB_CORE, "plan": SCREENED},
         ]
     return [
-        {"name": "L1: <=3 files, depth<=2, cwd=root/MYPYPATH unset, every order, -p, -m, single files",
-         "depth": 2, "sizes": [1, 2, 3], "configs": CORE_CONFIGS,
-         "plan": {"orders": "all", "modules": True, "singles": True}},
-        {"name": "L2: <=2 files, depth<=3, full option grid, every order, -p, -m, single files",
-         "depth": 3, "sizes": [1, 2], "configs": all_configs(),
-         "plan": {"orders": "all", "modules": True, "singles": True}},
-        {"name": "L3: 3 files, depth<=2, MYPYPATH=[sub] and/or cwd inside, every order, -p",
-         "depth": 2, "sizes": [3], "configs": EXTRA_CONFIGS,
-         "plan": {"orders": "all", "modules": False, "singles": False}},
-        {"name": "L4: 4 files, depth<=2, cwd=root/MYPYPATH unset, sorted+reversed order, -p",
-         "depth": 2, "sizes": [4], "configs": CORE_CONFIGS,
-         "plan": {"orders": "rev", "modules": False, "singles": False}},
+        {"name": "T1: <=2 files, depth<=2, full 12-configuration grid; DIR, FILES in every order, -p, -m, single files",
+         "depth": 2, "sizes": [1, 2], "configs": all_configs(), "plan": EVERYTHING},
+        {"name": "T2: 3 files, depth<=2, cwd=root/MYPYPATH unset x 3 option sets; DIR, FILES in every order, -p",
+         "depth": 2, "sizes": [3], "configs": CORE_CONFIGS, "plan": {"orders": "all", "modules": False, "singles": False}},
+        {"name": "T3: 3 files, depth<=2, explicit_package_bases with MYPYPATH=[sub] and/or cwd inside; DIR, FILES sorted+reversed, -p",
+         "depth": 2, "sizes": [3], "configs": EPB_EXTRA, "plan": {"orders": "rev", "modules": False, "singles": False}},
+        {"name": "T4: 4 files, depth<=1, cwd=root/MYPYPATH unset x 3 option sets; DIR, FILES in 8 rotations, -p",
+         "depth": 1, "sizes": [4], "configs": CORE_CONFIGS, "plan": {"orders": "rot", "modules": False, "singles": False}},
+        {"name": "T5: <=2 files, depth exactly 3, cwd=root/MYPYPATH unset x 3 option sets; everything",
+         "depth": 3, "min_depth": 3, "sizes": [1, 2], "configs": CORE_CONFIGS, "plan": EVERYTHING},
+        {"name": "T6: 4 files, depth<=2, explicit_package_bases, cwd=root/MYPYPATH unset; DIR(root), FILES reversed, DIR(D) vs -p D",
+         "depth": 2, "sizes": [4], "configs": EPB_CORE, "plan": LIGHT},
+        {"name": "T7 (screened): 4 files, depth<=2, namespace_packages off, cwd=root/MYPYPATH unset; source lists of DIR, FILES, -p "
+                 "compared for every tree; builds only for targets whose source lists differ",
+         "depth": 2, "sizes": [4], "configs": [c for c in CORE_CONFIGS if c["opt"] == "ns0"], "plan": SCREENED},
     ]
 
 
@@ -659,8 +729,13 @@ def run(ctx: Ctx, layers: list[dict] | None = None, batch: int | None = None) ->
         trees: list[T.Tree] = []
         total_with_mirrors = 0
         for n in layer["sizes"]:
-            trees.extend(T.canonical_trees(layer["depth"], n))
-            total_with_mirrors += T.count_all(layer["depth"], n)
+            ts = T.canonical_trees(layer["depth"], n)
+            if layer.get("min_depth"):
+                ts = [t for t in ts if T.tree_depth(t) >= layer["min_depth"]]
+                total_with_mirrors += sum(1 for t in T.dir_contents(layer["depth"], n) if T.tree_depth(t) >= layer["min_depth"])
+            else:
+                total_with_mirrors += T.count_all(layer["depth"], n)
+            trees.extend(ts)
         per = batch or max(2, min(60, 2400 // max(1, len(layer["configs"]) * (6 if layer["plan"]["orders"] == "all" else 3)),
                                   -(-len(trees) // 96)))
         for ch in chunked(trees, per):
@@ -668,6 +743,7 @@ def run(ctx: Ctx, layers: list[dict] | None = None, batch: int | None = None) ->
                          "plan": layer["plan"]})
         layer_info.append({"layer": layer["name"], "trees_canonical": len(trees), "trees_with_mirror_images": total_with_mirrors,
                            "configs": len(layer["configs"]), "orders": layer["plan"]["orders"]})
+    scratch("c18")  # create the scratch root in THIS process: forked children inherit it and our atexit removes it
     order = seeded_order(list(range(len(jobs))), ctx.seed)
     jobs_run = [jobs[i] for i in order]
     tot: Counter = Counter()
@@ -695,8 +771,9 @@ def run(ctx: Ctx, layers: list[dict] | None = None, batch: int | None = None) ->
         if done % 50 == 0:
             log(f"C18 {done}/{len(jobs_run)} batches, {tot['builds']} builds, {ctx.elapsed():.0f}s")
     # deterministic, simplest-first order of violations
-    raw_viol.sort(key=lambda v: (len(v["detail"]["tree"]), T.tree_depth(tuple(v["detail"]["tree"])), v["detail"]["tree"],
-                                 cfg_name(v["detail"]["config"]), v["signature"], v["detail"].get("args_a"), v["detail"].get("args_b", [])))
+    raw_viol.sort(key=lambda v: (len(v["detail"]["tree"]), T.tree_depth(tuple(v["detail"]["tree"])),
+                                 v["detail"]["config"]["inside"], v["detail"]["config"]["mp"], v["detail"]["tree"],
+                                 v["detail"]["config"]["opt"], v["signature"], v["detail"].get("args_a"), v["detail"].get("args_b", [])))
     violations = [Violation(v["signature"], v["what"], v["detail"]) for v in raw_viol]
     samples.sort(key=lambda s: s[0])  # type: ignore[index]
     for li, c in enumerate(per_layer):
@@ -730,6 +807,8 @@ def run(ctx: Ctx, layers: list[dict] | None = None, batch: int | None = None) ->
                   "cwd {root, first top-level dir}",
         "comparisons": tot["comparisons"],
         "comparison_breakdown": {k: v for k, v in sorted(tot.items()) if k.startswith(("comparisons_", "p_", "nontrivial", "order_only"))},
+        "screening": {k: v for k, v in sorted(tot.items()) if k.startswith(("groups_", "source_list_"))},
+        "scope_exclusions": {k: v for k, v in sorted(tot.items()) if k.startswith(("cases_skipped", "graph_checks_skipped", "graph_checks_name", "files_mypy"))},
         "graph_checks": tot["graph_checks"],
         "graph_checks_of_modules_found_by_import": tot["graph_checks_of_modules_found_by_import"],
         "builds_shared_identical_sources": tot["builds_shared_identical_sources"],
@@ -745,9 +824,16 @@ def run(ctx: Ctx, layers: list[dict] | None = None, batch: int | None = None) ->
         "an invocation whose BuildSource list (path, module, base_dir) equals one already built for the same tree and "
         "configuration re-uses that build's result (mypy's output is a function of its inputs; determinism is C10's subject)",
         "several builds run sequentially in one freshly forked child; build.build resets mypy's global state itself",
-        "-p PKG is compared with `mypy DIR` only where mypy's own crawl names every file of DIR under PKG and mypy's own "
-        "finder locates PKG at DIR; otherwise the two commands legitimately ask different questions",
+        "-p PKG is compared with `mypy DIR` only where the documented rule makes DIR the package PKG rooted at a searched "
+        "directory (explicit bases: always; otherwise DIR has __init__, its parent has none, and without namespace packages "
+        "every sub-directory has __init__) and no other search root offers the same top-level name",
         "invocations that stop with the duplicate-module blocker are exempt (the property's own exception)",
+        "the once-per-run note 'See https://mypy.readthedocs.io/...#missing-imports' is dropped before comparing (mypy attaches it to "
+        "whichever missing-import error it reports first)",
+        "screened layers compare the BuildSource lists (file -> module) of every tree and run builds only where they differ; "
+        "for the other targets of those layers only the source-list level is claimed",
+        "oracle (b) is evaluated only for names whose base directory the build searches and that no other file/directory "
+        "provides through another (overlapping) search root",
     ], harness_errors=herr)
 
 
@@ -794,6 +880,7 @@ def replay(ctx: Ctx, rec: dict) -> Result:
     from mc.kernel import run_isolated
 
     d = rec["detail"]
+    scratch("c18-replay")
     out = run_isolated(_replay_child, d, timeout=600)
     print(f"tree={d['tree']} config={cfg_name(d['config'])} module_of={out['names']}")
     for side in ("a", "b"):
